@@ -478,9 +478,13 @@ FIELD_SHAPES = ["f%d", "foo_bar%d", "fooBaz%d", "x_%d", "a%d_b", "Zed%d", "long_
 class Gen:
     """Builds a valid program and records the sites the mutators work on."""
 
-    def __init__(self, rng, small=False):
+    def __init__(self, rng, small=False, extended=False):
         self.rng = rng
         self.small = small         # quick tier: fewer elements per message, nesting depth 2
+        # extended: also extension declarations on adjacent ranges, a stand-in descriptor.proto and custom-option
+        # extensions nested in messages.  Off by default: other checks (C27) use this generator with the basic
+        # feature set, and the random stream of the basic set is left untouched.
+        self.extended = extended
         self.n = 0                 # global counter for unique names
         self.files = []
         self.types = []            # {fqn, kind: message|enum, file: index, syntax, extr: [...], first_zero, values}
@@ -617,7 +621,7 @@ class Gen:
             blocked.append((x["s"], e))
         trec["extr"] = [(x["s"], FIELD_MAX if x["max"] else (x["s"] if x["e"] is None else x["e"])) for x in ext]
         adj_cuts = None
-        if syntax != "proto3" and r.chance(1, 3 if self.small else 4):
+        if self.extended and syntax != "proto3" and r.chance(1, 3 if self.small else 4):
             adj_cuts = [600]
             for _ in range(r.range(2, 3)):
                 adj_cuts.append(adj_cuts[-1] + r.range(1, 6))
@@ -878,7 +882,7 @@ class Gen:
         r = self.rng
         nfiles = nfiles or (r.choice([1, 1, 1, 2, 2, 3]) if self.small else r.choice([1, 1, 2, 2, 3, 4]))
         self.imports_idx, self.public_idx = [], []
-        use_std = r.chance(1, 3)
+        use_std = self.extended and r.chance(1, 3)
         if use_std:
             self.files.append(self.std_file())
             self.imports_idx.append([])
@@ -920,6 +924,9 @@ class Gen:
                 self.option_extends(fi, syntax, f)
             f["decls"] = r.shuffle(f["decls"])
         return self.files
+
+
+EXTENDED_MUTATORS = ("extension_declaration",)
 
 
 def json_name(s):
@@ -1987,23 +1994,24 @@ def c02_terms(files, out):
     return "C02Case %s %s" % (fs, obs), "SpecDesc %s %s" % (fs, obs)
 
 
-def gen_cases(rng, nprog, nmut, small=False):
+def gen_cases(rng, nprog, nmut, small=False, extended=False):
     """[(label, asts)] : valid programs and single-rule mutants of them"""
     progs = []
     for _ in range(nprog):
-        g = Gen(rng, small)
+        g = Gen(rng, small, extended)
         files = g.program()
         progs.append(("valid", files))
         mu = Mutator(rng)
-        names = mu.names()
+        names = [n for n in mu.names() if extended or n not in EXTENDED_MUTATORS]
         for _ in range(nmut):
             nm = rng.choice(names)
             m = mu.apply(nm, files)
             if m is not None:
                 progs.append((nm, m))
-        m = mu.apply("extension_declaration", files)
-        if m is not None:
-            progs.append(("extension_declaration", m))
+        if extended:
+            m = mu.apply("extension_declaration", files)
+            if m is not None:
+                progs.append(("extension_declaration", m))
     return progs
 
 
